@@ -301,19 +301,15 @@ func genParkedWorkflow(r *mon.Rand, name, path string, in vd, wantBad bool) (*tG
 		// cannot happen with nSrc >= 1; a START-only spec always has its source
 		panic("verif: parked spec without a source")
 	}
+	// the node with the first branch reports the state: everything before it has finished, nothing else runs
+	// (the branch targets run side by side: what one of them would see of the others' handlers is a matter of timing)
+	g.Nodes[len(g.Nodes)-1].ReadsState = g.State
 	p.level(len(g.Nodes)-1, 1)
 	for i, t := range p.tails {
 		g.End = append(g.End, tEdge{From: t, Mode: "field", Dst: []string{"L" + strconv.Itoa(i)}, Rel: "fieldmap"})
 	}
 	inner := vd{K: kAny, D: &vd{K: kStr}}
 	g.Out = vd{K: kMap, Key: "L0", D: &inner, NoPad: true, Multi: true}
-	if g.State {
-		for i := len(g.Nodes) - 1; i >= 0; i-- {
-			if g.Nodes[i].Key == p.tails[len(p.tails)-1] {
-				g.Nodes[i].ReadsState = true
-			}
-		}
-	}
 	return g, p.picked > 0
 }
 
